@@ -102,6 +102,10 @@ func c16Gen(tier string, emit func(any)) {
 	}
 	// a file that cannot be read after a file that does not parse (the run is made by an unprivileged user)
 	emit(&C16Case{Family: "unreadable-after-unparseable"})
+	// ... and after a file on which the engine fails as well; the same two failures before the write of an
+	// unmatched file to a full standard output under --print-only: a run that gives up reports what it recorded
+	emit(&C16Case{Family: "unreadable-after-unparseable", Position: 1})
+	emit(&C16Case{Family: "unreadable-after-unparseable", Position: 2})
 	// the number of failing files does not matter (an exit status is one byte)
 	for _, n := range []int{255, 256, 257, 512} {
 		emit(&C16Case{Family: "many-failures", Position: n})
@@ -379,7 +383,33 @@ func c16Run(env *core.Env, ci any) core.Outcome {
 			return core.Outcome{Skip: "needs root to become an unprivileged user"}
 		}
 		root := filepath.Join(env.Scratch, "c16u")
-		tree := map[string]string{"p.patch": c16Patch, "t/a_bad.go": "package p\n\nfunc broken( {\n", "t/b_unreadable.go": "package p\n\nfunc u() {\n\tfoo(1)\n}\n", "t/c_ok.go": "package p\n\nfunc g() {\n\tfoo(2)\n}\n"}
+		patchText := c16Patch
+		tree := map[string]string{"t/a_bad.go": "package p\n\nfunc broken( {\n", "t/b_unreadable.go": "package p\n\nfunc u() {\n\tfoo(1)\n}\n", "t/c_ok.go": "package p\n\nfunc g() {\n\tfoo(2)\n}\n"}
+		files := []string{"a_bad.go", "b_unreadable.go", "c_ok.go"}
+		want := []string{"a_bad.go", "b_unreadable.go", "permission denied"}
+		what := "a file that does not parse, then a file that cannot be read"
+		wrapper := []string{"setpriv", "--reuid=65534", "--regid=65534", "--clear-groups"}
+		var flags []string
+		if c.Position >= 1 {
+			// the engine fails on the first file: '+' uses a metavariable that '-' does not bind
+			patchText = "@@\nvar x, y expression\n@@\n-baz(x)\n+qux(x, y)\n\n" + c16Patch
+			tree["t/a_a_engine.go"] = "package p\n\nfunc r() {\n\tbaz(1)\n\tfoo(2)\n}\n"
+			files = append([]string{"a_a_engine.go"}, files...)
+			want = append(want, "a_a_engine.go")
+			what = "a file on which the engine fails, then " + what
+		}
+		if c.Position == 2 {
+			tree["t/b_unreadable.go"] = "package p\n\nfunc u() {\n\tnothingToDo(1)\n}\n" // readable, unmatched: echoed
+			want = []string{"a_c_engine.go", "a_bad.go", "no space left on device"}
+			what = "a file that does not parse, then a file on which the engine fails and which is echoed to a full standard output (--print-only)"
+			// (the file on which the engine fails counts as unmatched and is echoed too: it comes second)
+			tree["t/a_c_engine.go"] = tree["t/a_a_engine.go"]
+			delete(tree, "t/a_a_engine.go")
+			files = []string{"a_bad.go", "a_c_engine.go", "b_unreadable.go", "c_ok.go"}
+			wrapper = append(wrapper, "sh", "-c", `exec "$0" "$@" >/dev/full`)
+			flags = []string{"--print-only"}
+		}
+		tree["p.patch"] = patchText
 		if err := drive.FreshDir(root); err != nil {
 			panic(err)
 		}
@@ -389,14 +419,25 @@ func c16Run(env *core.Env, ci any) core.Outcome {
 		}
 		os.Chmod(env.Scratch, 0o755)
 		os.Chmod(root, 0o755)
-		for _, n := range []string{"t", "t/a_bad.go", "t/b_unreadable.go", "t/c_ok.go", "p.patch"} {
+		for _, n := range append([]string{"t", "p.patch"}, files...) {
+			if strings.HasSuffix(n, ".go") {
+				n = "t/" + n
+			}
 			os.Chown(filepath.Join(root, n), 65534, 65534)
 		}
-		os.Chmod(filepath.Join(root, "t", "b_unreadable.go"), 0)
-		r := c16Exec(env, root, nil, []string{"setpriv", "--reuid=65534", "--regid=65534", "--clear-groups"}, "", []string{"-p", filepath.Join(root, "p.patch"), "a_bad.go", "b_unreadable.go", "c_ok.go"})
-		if r.killed || r.exit == 0 || !strings.Contains(r.stderr, "a_bad.go") || !strings.Contains(r.stderr, "b_unreadable.go") || !strings.Contains(r.stderr, "permission denied") {
-			o.FindingKey = "C16:diagnostic-incomplete/unreadable-after-unparseable"
-			o.Violation = fmt.Sprintf("[a file that does not parse, then a file that cannot be read] exit status %d; stderr must name both files and their causes: %q", r.exit, r.stderr)
+		if c.Position != 2 {
+			os.Chmod(filepath.Join(root, "t", "b_unreadable.go"), 0)
+		}
+		r := c16Exec(env, root, nil, wrapper, "", append(append(flags, "-p", filepath.Join(root, "p.patch")), files...))
+		missing := ""
+		for _, w := range want {
+			if !strings.Contains(r.stderr, w) {
+				missing += " " + w
+			}
+		}
+		if r.killed || r.exit == 0 || missing != "" {
+			o.FindingKey = fmt.Sprintf("C16:diagnostic-incomplete/unreadable-after-unparseable/%d", c.Position)
+			o.Violation = fmt.Sprintf("[%s] exit status %d; stderr must name every file that failed and the causes, missing:%s: %q", what, r.exit, missing, r.stderr)
 		}
 		return o
 	}
